@@ -271,6 +271,26 @@ func (c *FnCtx) execCall(x *ssa.Call, common *ssa.CallCommon, st *State, reach *
 		args = append(args, TV{c.argTerm(a, st, &temps), a.Type()})
 	}
 	spec := c.calleeSpec(common)
+	// external-effect frame of the function under verification
+	if len(c.spec.OnlyCalls) > 0 {
+		full, short := "", ""
+		if obj != nil {
+			full, short = objFullName(obj), obj.Name()
+		} else if f, ok := common.Value.(*ssa.Function); ok {
+			full, short = f.String(), f.Name()
+		}
+		for _, oc := range c.spec.OnlyCalls {
+			if full != "" && strings.Contains(full, oc.Frag) {
+				if c.onlyHit == nil {
+					c.onlyHit = map[string]bool{}
+				}
+				c.onlyHit[oc.Frag] = true
+				if !oc.Allowed[short] {
+					c.oblige("only", fmt.Sprintf("%s@%s", short, c.posString(token.NoPos)), *reach, tFalse, "call to "+full+" is outside the allowed effects: only "+oc.Text)
+				}
+			}
+		}
+	}
 	// call-site obligations of the function under verification
 	if len(c.spec.CallPres) > 0 {
 		calleeName := ""
